@@ -204,6 +204,9 @@ var frags = []*Frag{
 	// a matrix without rows whose include mixes an expression with literal combinations, and a job that reads github.event
 	{Name: "matrix-include-expr-then-literal", Jobs: []FragJob{{ID: "{P}mie", Body: "    strategy:\n      matrix:\n        include:\n          - ${{ github.event }}\n          - release: x\n            action: y\n    runs-on: ubuntu-latest\n    steps:\n      - run: echo ${{ matrix.release }}\n"}}},
 	{Name: "github-event-release", Jobs: []FragJob{{ID: "{P}ger", Body: "    runs-on: ubuntu-latest\n    steps:\n      - run: echo \"${{ github.event.release.tag_name }} ${{ github.event.action }} ${{ github.event.release.nope.deeper }}\"\n"}}},
+	// the arrays of an event payload, once with .* and once with a property taken from the array itself
+	{Name: "github-event-arrays-star", Jobs: []FragJob{{ID: "{P}gas", Body: "    runs-on: ubuntu-latest\n    steps:\n      - run: echo \"${{ join(github.event.commits.*.id, ',') }} ${{ join(github.event.pages.*.action, ',') }}\"\n"}}},
+	{Name: "github-event-arrays-prop", Jobs: []FragJob{{ID: "{P}gap", Body: "    runs-on: ubuntu-latest\n    steps:\n      - run: echo \"${{ github.event.commits.id }} ${{ github.event.pages.action }} ${{ github.event.commits[0].id }} ${{ github.event.pages[1].action }}\"\n"}}},
 	{Name: "reusable-workflows-differing-in-case-1", Tie: true, Assets: []string{"wf-case"}, Jobs: []FragJob{{ID: "{P}wc1", Body: "    uses: ./.github/workflows/reuse-Case.yml\n    with:\n      level: 3\n"}}},
 	{Name: "reusable-workflows-differing-in-case-2", Tie: true, Assets: []string{"wf-case"}, Jobs: []FragJob{{ID: "{P}wc2", Body: "    uses: ./.github/workflows/reuse-case.yml\n    with:\n      token: t\n"}}},
 	// an object type printed in a message whose property names differ only in letter case
